@@ -1,5 +1,5 @@
 /-
-  Props/Src/Key.lean — the TRANSLATED `ReadKeyFromFile` (Generated/Src.lean) is the model's `KeyFile.readKey` on the bytes that
+  Props/Src/Key.lean — the TRANSLATED `ReadKeyFromFile` and `WriteKeyToFile` (Generated/Src.lean): the former is the model's `KeyFile.readKey` on the bytes that
   `os.ReadFile` returns: a key is accepted iff the file can be read, its content is valid base64 and decodes to exactly 64 bytes —
   and then the key in force is exactly those bytes.  `os.ReadFile` and the base64 decoder are parameters (the model's decoder,
   `Model/Base64.lean`, is compared with encoding/base64 byte for byte by the `crypto` correspondence).
@@ -48,5 +48,31 @@ theorem ReadKeyFromFile_accepts (g : Globals) (T : Tables) (path : Str) (k : Byt
       · have e : (len k' == (64 : Int)) = false := by
           simp only [len, beq_eq_false_iff_ne, ne_eq]; omega
         simp [hr, hd, errPair, e] at h
+
+/-- **`WriteKeyToFile`**: nothing is written unless the key is 64 bytes long; then there is exactly one write — of the base64 text
+    of the key, to the given path, with permission bits 0600 (= 384) — and the function's error is that write's error -/
+theorem WriteKeyToFile_eq (g : Globals) (T : Tables) (path : Str) (key : Bytes) :
+    WriteKeyToFile g T path key = some (if key.length = 64 then g.WriteFile path (utf8 (g.b64 key)) 384 else true) := by
+  unfold WriteKeyToFile
+  by_cases hl : key.length = 64
+  · have e : (len key == (64 : Int)) = true := by simp [len, hl]
+    cases hw : g.WriteFile path (utf8 (g.b64 key)) 384 <;> simp [e, hl, hw]
+  · have e : (len key == (64 : Int)) = false := by
+      simp only [len, beq_eq_false_iff_ne, ne_eq]; omega
+    simp [e, hl]
+
+/-- what `WriteKeyToFile` writes is what the model's key step leaves at the key path (`KeyFile.step … .absent`) -/
+theorem WriteKeyToFile_model (g : Globals) (B : KeyFile.B64) (hE : ∀ b, B.enc b = utf8 (g.b64 b)) (fresh : Bytes) (h : fresh.length = 64) :
+    (KeyFile.step B fresh .absent).1 = .file (utf8 (g.b64 fresh)) := by
+  simp [KeyFile.step, h, hE]
+
+/-- **write, then read**: a key of 64 bytes written by `WriteKeyToFile` — the file then holding what was written — is the key
+    `ReadKeyFromFile` returns, for every base64 codec with the round-trip law -/
+theorem Write_then_Read (g : Globals) (T : Tables) (B : KeyFile.B64) (hB : B.dec = g.b64dec) (hE : ∀ b, B.enc b = utf8 (g.b64 b))
+    (path : Str) (key : Bytes) (hl : key.length = 64) (hfile : g.ReadFile path = some (utf8 (g.b64 key))) :
+    ReadKeyFromFile g T path = some (key, false) := by
+  rw [ReadKeyFromFile_eq g T B hB, hfile]
+  have : B.dec (utf8 (g.b64 key)) = some key := by rw [← hE]; exact B.dec_enc key
+  simp [Option.bind, KeyFile.readKey, this, hl, keyPair]
 
 end Anonymongo.Src
